@@ -188,6 +188,9 @@ func runKeySet(rep *vevid.Report, d caseDesc, dry bool) int {
 		rep.Count("tries_checked", 2)
 	}
 
+	if d.Name == "fan" {
+		return sec // the fan family targets the trie's rank/select vectors only
+	}
 	// ---- index/model TrieBucket: one dictionary written with several block sizes ----
 	bprobes := probes
 	if small {
@@ -364,6 +367,14 @@ func mainEnum(f *vevid.Flags, rep *vevid.Report) {
 	rep.Bounds["regexps"] = len(regexps)
 	rep.Bounds["like_subkeys"] = len(likeSubKeys)
 
+	maxFan := 140
+	if f.Thorough() {
+		maxFan = 254
+	}
+	rep.Bounds["fan_family"] = fmt.Sprintf("fan(L), L=1..%d", maxFan)
+	for l := 1; l <= maxFan; l++ {
+		large = append(large, caseDesc{Kind: "large", Name: "fan", N: l})
+	}
 	var idx int64
 	// large sets first (longest jobs first), each one its own work item
 	for _, d := range large {
